@@ -10,7 +10,9 @@ def build(ctx, prec="d", flavor="hooks"):
     extra = []
     if flavor == "vendor":      # BLAS-3 (dtrsm/dgemm in ?gstrs) is not in /repo/CBLAS: use the system OpenBLAS as the pinned build does
         extra = ["/usr/lib/x86_64-linux-gnu/libopenblas.so"]
-    return ctx.cc_harness("drv_%s_%s" % (prec, flavor), ["drv_harness.c", "sp_ienv_verif.c"], lib, fl + [PRECS[prec]], extra_link=extra)
+    # lock_jitter.c: random delay before every pthread_mutex_lock of the library (a legal schedule), on for perturbed cases
+    return ctx.cc_harness("drv_%s_%s" % (prec, flavor), ["drv_harness.c", "sp_ienv_verif.c", "lock_jitter.c"], lib, fl + [PRECS[prec]],
+                          extra_link=extra + ["-Wl,--wrap=pthread_mutex_lock"])
 
 
 def hexf(x):
